@@ -20,7 +20,7 @@ ASSUMPTIONS = ['"recognised page": every line has baseline (2 px .. block width,
                'ALTO TextLine elements carry no id: lines are matched by order within their block']
 N = {'quick': 800, 'thorough': 40000}
 CLASSES = ['page', 'page', 'page_whitespace', 'page_arabic', 'page_conf', 'order_conversion', 'page_short_lines', 'page_long_lines']
-REQUIRED = ['aligned_lines_over_1000_frames', 'aligned_lines_with_offset_window', 'astral_lines', 'entity_like_lines', 'short_baseline_lines', 'exports', 'lines_expected', 'aligned_lines', 'fallback_lines', 'words_compared', 'nonascii_space_lines', 'arabic_lines', 'arabic_fallback_lines', 'dropped_lines',
+REQUIRED = ['decomposed_lines', 'lines_with_an_outline_without_extent', 'aligned_lines_over_1000_frames', 'aligned_lines_with_offset_window', 'astral_lines', 'entity_like_lines', 'short_baseline_lines', 'exports', 'lines_expected', 'aligned_lines', 'fallback_lines', 'words_compared', 'nonascii_space_lines', 'arabic_lines', 'arabic_fallback_lines', 'dropped_lines',
             'printspace_checked', 'reimports', 'conversions_checked']
 NS = '{http://www.loc.gov/standards/alto/ns-v2#}'
 CH = list("abcdefgh.,-") + [' '] + list('ابتثج')
@@ -113,6 +113,10 @@ def gen(rng, i, ctx):
                 bl = [[xs, by], [xs + int(rng.integers(2, 13)), by + int(rng.integers(-1, 2))]]
             h = [float(rng.uniform(10, 30)), float(rng.uniform(3, 10))]
             pg = [[x0 + 5, by - h[0]], [x1 - 5, by - h[0]], [x1 - 5, by + h[1]], [x0 + 5, by + h[1]]]
+            if cls == 'page_short_lines' and rng.random() < 0.3:
+                # an outline without extent after truncation to whole pixels: thinner than a pixel, flat on the baseline, or a single point
+                pg = [[[x0 + 5, by], [x1 - 5, by], [x1 - 5, by + 0.4], [x0 + 5, by + 0.4]], [[x0 + 5, by], [x1 - 5, by]], [[x0 + 7, by]],
+                      [[x0 + 5, by - 9], [x0 + 5.3, by - 9], [x0 + 5.3, by + 4], [x0 + 5, by + 4]]][int(rng.integers(0, 4))]
             script = 'arabic' if cls == 'page_arabic' else str(rng.choice(['latin', 'latin', 'latin', 'arabic']))
             words = []
             for _ in range(int(rng.integers(1, 7)) if not (cls == 'page_long_lines' and l == 0) else int(rng.integers(70, 120))):
@@ -123,7 +127,8 @@ def gen(rng, i, ctx):
             # words outside the engine charset: astral-plane characters, and text that looks like an XML / HTML entity
             for wi in range(len(words)):
                 if rng.random() < 0.08:
-                    words[wi] = str(rng.choice(['\U0001D504\U0001D505', 'a\U0001F600b', '\U00010330', '\U00020000x', '&lt;', '&amp;', 'a&#169;', '&copy', '&nbsp;x', '&quot;b&gt;', '&amp;lt;br&amp;gt;', '&#x41;']))
+                    words[wi] = str(rng.choice(['\U0001D504\U0001D505', 'a\U0001F600b', '\U00010330', '\U00020000x', '&lt;', '&amp;', 'a&#169;', '&copy', '&nbsp;x', '&quot;b&gt;', '&amp;lt;br&amp;gt;', '&#x41;',
+                                               'e\u0301', 'a\u0308b', 'cafe\u0301', '\u0627\u0653', 'n\u0303', 'e\u0301\u0301']))      # ... and decomposed (NFD) sequences
             kinds = ['single', 'single', 'double', 'lead', 'trail'] if cls != 'page_whitespace' else ['nbsp', 'tab', 'thin', 'ideo', 'mixed', 'mixed2', 'double', 'lead', 'trail']
             sep = str(rng.choice(kinds))
             if sep in SEPS:
@@ -261,6 +266,12 @@ def check(case, mon, ctx):
                 mon.count('aligned_lines_with_offset_window')
             if any(ord(ch) > 0xFFFF for ch in t):
                 mon.count('astral_lines')
+            import unicodedata as _ud
+            if _ud.normalize('NFC', t) != t:
+                mon.count('decomposed_lines')
+            pgx = np.asarray(l['polygon'], dtype=np.float64)
+            if int(pgx[:, 0].max()) - int(pgx[:, 0].min()) <= 0 or int(pgx[:, 1].max()) - int(pgx[:, 1].min()) <= 0:
+                mon.count('lines_with_an_outline_without_extent')
             if '&' in t:
                 mon.count('entity_like_lines')
             conf = lo.transcription_confidence
